@@ -1,7 +1,7 @@
 (* Dispatch.v -- one entry point per property for the OCaml driver. *)
 From Coq Require Import ZArith List.
 From CiwV Require Import Sx Sched.
-From CiwV Require Acc.C01 Acc.C02 Acc.C03 Acc.C04 Acc.C05 Acc.C06 Acc.C07 Acc.C08 Acc.C09 Acc.C10 Acc.C11 Acc.C12 Acc.C13 Acc.C14 Acc.C18.
+From CiwV Require Acc.C01 Acc.C02 Acc.C03 Acc.C04 Acc.C05 Acc.C06 Acc.C07 Acc.C08 Acc.C09 Acc.C10 Acc.C11 Acc.C12 Acc.C13 Acc.C14 Acc.C15 Acc.C16 Acc.C18.
 From CiwV Require Acc.C17.
 From CiwV Require Acc.C19.
 From CiwV Require Acc.C20.
@@ -24,6 +24,8 @@ Definition dispatch (name : Z) (s : sx) : verdict :=
   | 12 => C12.run s
   | 13 => C13.run s
   | 14 => C14.run s
+  | 15 => C15.run s
+  | 16 => C16.run s
   | 17 => C17.run s
   | 18 => C18.run s
   | 19 => C19.run s
